@@ -59,6 +59,15 @@ func vC06Bin[T vNum]() {
 		d, dw = b, bw
 		opts = append(opts, WithReuse(b))
 	}
+	// (the vecf32/vecf64 kernels that map x/0 to +Inf are only used on the contiguous path; the iterator kernels follow Go.
+	// Which path is taken is read off the tensors themselves, before the call)
+	contigPath := !a.RequiresIterator()
+	if form == "TT" {
+		contigPath = contigPath && !b.RequiresIterator() && a.DataOrder().HasSameOrder(b.DataOrder())
+	}
+	if (mode == "reuse" || mode == "incr") && d != nil {
+		contigPath = contigPath && !d.RequiresIterator() && d.DataOrder().HasSameOrder(a.DataOrder())
+	}
 	switch form {
 	case "TT":
 		pan = vCatch(func() { res, err = vCallBin(op, api, a, b, opts...) })
@@ -176,10 +185,6 @@ func vC06Bin[T vNum]() {
 	// known finding: on the iterator path a reuse tensor that is the second operand is overwritten with the first
 	// operand before the operation reads it
 	la, lb := vCfgStr("la"), vCfgStr("lb")
-	// (the vecf32/vecf64 kernels that map x/0 to +Inf are only used on the contiguous path; the iterator kernels follow Go)
-	ldv := vCfgStr("ld")
-	contigPath := !(la == "T" || la == "S" || la == "SS") && !(form == "TT" && (lb == "T" || lb == "S" || lb == "SS")) && !(form == "TT" && ((la == "F") != (lb == "F"))) &&
-		!((mode == "reuse" || mode == "incr") && (ldv == "S" || ldv == "T" || ldv == "SS" || ((ldv == "F") != (la == "F"))))
 	kfB := mode == "reuseB" && (la == "T" || la == "S" || la == "SS" || lb == "T" || lb == "S" || lb == "SS")
 	// column-major findings (C16): min/max between of column-major operands return a row-major tensor filled in
 	// storage order; a reuse/incr destination whose data order differs from the operand's is re-flagged, not re-laid out
